@@ -604,6 +604,20 @@ def cMboxRx (C : Crypto) (c : Client) (side phase : String) (body : Bytes) : CRe
   let (m', effs, err) := mboxRx c.side c.mbox side phase body
   thenErr (runEffs (mEffRx C) { c with mbox := m' } effs) err
 
+/-! ## the API façade (`wormhole.py`: `_DelegatedWormhole` / `_DeferredWormhole`)
+
+Both façades are thin: `send_message` / `close` call the Boss at once (also when the application calls
+them from inside one of its callbacks — Automat then runs the nested input depth-first, i.e. at that
+point of the Boss's input sequence), and the events from the Boss are handed to the delegate
+synchronously (Delegated) or to the observers (Deferred: `Obs`).  `Props.C03.api_skeleton_agrees`
+pins exactly this shape. -/
+
+/-- `w.send_message(plaintext)` = `self._boss.send(plaintext)` -/
+def wSendMessage (C : Crypto) (c : Client) (pt : Bytes) : CRes := cBoss C c .send (.pt pt)
+
+/-- `w.close()` = `self._boss.close()` -/
+def wClose (C : Crypto) (c : Client) : CRes := cBoss C c .close .none
+
 /-! ## well-typed inputs of the machines (what their callers can actually pass) -/
 
 inductive BIn where
@@ -808,8 +822,9 @@ def step (c : Client) (line : String) : Client × String :=
   | ["new", side] => (clientInit side, "ok")
   | ["send", h] =>
     match fromHex? h with
-    | some pt => finish (cBoss C c .send (.pt pt))
+    | some pt => finish (wSendMessage C c pt)
     | none => (c, "bad-op")
+  | ["close"] => finish (wClose C c)
   | ["boss", name] =>
     match bossInput? name with
     | some (i, a) => finish (cBoss C c i a)
